@@ -39,6 +39,7 @@ def dispatch (line : String) : String :=
   | "oa" :: args => runOA args
   | "of" :: args => runOF args
   | "tr" :: args => runTR args
+  | "tw" :: args => runTW args
   | _ => "bad-component"
 
 partial def loop (h : IO.FS.Stream) (out : IO.FS.Stream) : IO Unit := do
